@@ -218,6 +218,7 @@ class CExec:
         env = {}
         for p, a in zip(params, args):
             env[p["name"]] = a
+        env["@labels"] = label_ids(decl)         # per frame: the continuation of an inlined call runs in the caller's frame again
         st = st._copy(env=env)
         labels = self.collect_labels(body)
         out = []
@@ -312,7 +313,7 @@ class CExec:
                 return [("return", None, st)]
             return self.ev(s["inner"][0], st, lambda v, st2: [("return", v, st2)])
         if k == "GotoStmt":
-            return [("goto", self.label_name(s), st)]
+            return [("goto", self.label_name(s, st), st)]
         if k == "LabelStmt":
             return self.stmt(s["inner"][0], st)
         if k == "BreakStmt":
@@ -338,10 +339,10 @@ class CExec:
         # expression statement
         return self.ev(s, st, lambda v, st2: [("next", None, st2)])
 
-    def label_name(self, s):
-        # clang gives the target as targetLabelDeclId; names are resolved through the label table by id
+    def label_name(self, s, st):
+        # clang gives the target as targetLabelDeclId; names are resolved through the label table of the current frame
         tid = s.get("targetLabelDeclId")
-        return self.label_ids.get(tid, tid)
+        return st.env.get("@labels", {}).get(tid, getattr(self, "label_ids", {}).get(tid, tid))
 
     def switch(self, s, st):
         cond, body = s["inner"][0], s["inner"][-1]
